@@ -24,7 +24,7 @@ FUNCTIONS = [
 SHIMS = ["math.isclose/isnan/isinf/isfinite dispatch on proxies (exact over the reals)", "logging disabled"]
 ASSUMPTIONS = [
     "floats are modelled as exact reals (IEEE rounding outside the claim)",
-    "system bounds il <= el <= 0 <= eu <= iu; proposal values unconstrained (any None pattern)",
+    "system bounds il <= 0 <= iu and exclusion zone el <= 0 <= eu (the zone may stick out of the inclusion bounds); proposal values unconstrained (any None pattern)",
     "PYTHONHASHSEED=0 (set iteration order of the proposal bucket fixed; only affects deletion order)",
 ]
 BOUNDS = {
@@ -37,9 +37,13 @@ OUTSIDE = "more than 3 live proposals; IEEE rounding; overlapping component buck
 BUDGET = {"quick": 600, "thorough": 1800}
 
 
-def sysbounds(ex):
+def sysbounds(ex, subset=False):
+    """subset=True: additionally the exclusion zone lies inside the inclusion bounds (the documented contract of SystemBounds)"""
     il, iu, el, eu = ex.real("il"), ex.real("iu"), ex.real("el"), ex.real("eu")
-    ex.assume(z3.And(E(il) <= E(el), E(el) <= 0, 0 <= E(eu), E(eu) <= E(iu)))
+    if subset:
+        ex.assume(z3.And(E(il) <= E(el), E(eu) <= E(iu)))
+    # the quantifier: lower <= 0 <= upper and an exclusion zone containing 0 (it may stick out of the inclusion bounds)
+    ex.assume(z3.And(E(il) <= 0, 0 <= E(iu), E(el) <= 0, 0 <= E(eu)))
     sb = SystemBounds(timestamp=TS, inclusion_bounds=Bounds(W(il), W(iu)), exclusion_bounds=Bounds(W(el), W(eu)))
     return sb, (il, iu, el, eu)
 
